@@ -173,6 +173,7 @@ def campaign(pid: str, mod_name: str, tier: str, master_seed: int, n_runs: int, 
     agg = Aggregate(pid)
     print(f"[{pid}] tier={tier} VERIF_SEED={master_seed} runs={'time-boxed %ss' % budget_s if budget_s else n_runs} workers={workers}", flush=True)
     ctx = mp.get_context("spawn")
+    known_now = load_known()
     pool_broken = None
     submitted = 0
     try:
@@ -203,7 +204,8 @@ def campaign(pid: str, mod_name: str, tier: str, master_seed: int, n_runs: int, 
                 if r.get("status") not in ("ok", "skipped"):
                     print(f"[{pid}] seed={r.get('seed')} status={r.get('status')} {str(r.get('detail') or (r.get('violations') or [''])[0])[:400]}", flush=True)
                 more = (submitted < target) if budget_s is None else (time.time() - t0 < budget_s)
-                if more and len(agg.violations) < opts.get("max_violations", 3):
+                n_new = sum(1 for v in agg.violations if match_known(pid, (v.get("violations") or [{}])[0], known_now) is None)
+                if more and n_new < opts.get("max_violations", 3):
                     submit_one()
     except BrokenProcessPool as e:
         pool_broken = str(e)
